@@ -45,10 +45,17 @@ def main():
                 shutil.rmtree(tmp, ignore_errors=True)
             else:
                 sh('git -C /repo checkout -- .')
-        meta['check_results_final'] = {prop: res}
-        meta['caught_final'] = res.get('exit') == 1 and bool(res.get('violations'))
-        json.dump(meta, open(os.path.join(d, 'meta.json'), 'w'), indent=1)
-        print('%-45s exit=%s violations=%s %s' % (name, res.get('exit'), res.get('violations'), (res.get('first_failed_obligation') or res.get('note') or '')[:110]))
-        bad += 0 if meta['caught_final'] else 1
+        caught = res.get('exit') == 1 and bool(res.get('violations'))
+        if meta.get('superseded'):
+            # a change that no longer breaks the property on the repaired tree (see meta['superseded']): not expected to be reported
+            print('%-45s SKIP superseded exit=%s' % (name, res.get('exit')))
+            continue
+        if '--no-write' not in sys.argv:
+            meta['check_results_final'] = {prop: res}
+            meta['caught_final'] = caught
+            json.dump(meta, open(os.path.join(d, 'meta.json'), 'w'), indent=1)
+        print('%-45s %s exit=%s violations=%s %s' % (name, 'CAUGHT' if caught else ('SKIP patch no longer applies' if res.get('exit') is None else 'MISSED'),
+                                                     res.get('exit'), res.get('violations'), (res.get('first_failed_obligation') or res.get('note') or '')[:110]))
+        bad += 0 if caught or res.get('exit') is None else 1
     sys.exit(1 if bad else 0)
 main()
